@@ -154,7 +154,10 @@ ReadChunksEv ==
          ids == {sc.arch[idx[i]][1] : i \in {j \in 1..Len(idx) : idx[j] # 0}} IN
      /\ requested' = requested \cup ids
      /\ IF \E i \in 1..Len(idx) : idx[i] = 0 THEN FlagSoft("FETCH: requested range is not the stored range of a chunk")
-        ELSE IF \E i, j \in 1..Len(idx) : i # j /\ idx[i] = idx[j] THEN FlagSoft("FETCH: chunk requested twice")
+        \* a stored range may be asked for once per descriptor that names it (an archive may carry several descriptors for one chunk, C17)
+        ELSE IF \E i \in 1..Len(idx) : Cardinality({j \in 1..Len(idx) : idx[j] = idx[i]})
+                                        > Cardinality({k \in 1..Len(sc.arch) : sc.arch[k][2] = sc.arch[idx[i]][2] /\ sc.arch[k][3] = sc.arch[idx[i]][3]})
+             THEN FlagSoft("FETCH: chunk requested twice")
         ELSE IF ids \cap requested # {} THEN FlagSoft("FETCH: chunk requested twice")
         ELSE IF \E id \in ids : id \in ReusableIds(sc, scan) THEN FlagSoft("FETCH: chunk found in the prior output was requested from the archive")
         ELSE IF \E id \in ids : id \in provided THEN FlagSoft("FETCH: chunk found in a seed was requested from the archive")
